@@ -369,15 +369,89 @@ def _gen_on_stub(method, opcode):
 
         def emit(self, ins):
             self.emitted.append(ins)
+            self.blocks[self.current].append(ins)
             return ins
+
+    class Builder:
+        """records the control-flow skeleton the generator builds (blocks are real ir.Block objects, kept unlinked)"""
+
+        def __init__(self, stub):
+            self.stub, self.n = stub, 0
+
+        def new_block(self, name=None):
+            self.n += 1
+            blk = ir.Block(name or "b%d" % self.n)
+            self.stub.blocks[blk] = []
+            return blk
+
+        def set_block(self, blk):
+            self.stub.current = blk
+
     ty = WasmToIrCompiler.TYP_MAP[opcode.split(".")[0]]
     st = Stub(ty)
+    st.blocks = {}
+    st.builder = Builder(st)
+    st.entry = st.current = st.builder.new_block("entry")
+    st._runtime_call = lambda name, args=(): st.emit(("runtime-call", name))
     if opcode.endswith("eqz"):
         st.stack.pop()                      # one operand only (named a)
     getattr(st, method)(components.Instruction(opcode))
     if len(st.stack) != 1:
         raise AssertionError("%s left %d values on the stack" % (opcode, len(st.stack)))
+    _STUBS[id(st.stack[0])] = st
     return st.stack[0]
+
+
+_STUBS = {}      # result node -> the stub it was generated on (for results that live in a control-flow skeleton)
+
+
+def _ir_walk(node, a, b, e):
+    """execute the recorded skeleton from its entry block up to the block that defines `node`:
+    returns (a runtime trap call was reached, value of node).  Conditional jumps fork the symbolic path."""
+    from ppci import ir
+    st = _STUBS[id(node)]
+    vals, prev, blk, trapped = {}, None, st.entry, False
+
+    def val(v):
+        if id(v) in vals:
+            return vals[id(v)]
+        return _ir_value(v, a, b, e)
+    for _ in range(16):
+        nxt = None
+        for ins in st.blocks[blk]:
+            if isinstance(ins, tuple):
+                if ins == ("runtime-call", "unreachable"):
+                    trapped = True
+                    continue
+                raise Undecided("contract stale: runtime call %r in an operator lowering" % (ins,))
+            if isinstance(ins, ir.CJump):
+                cond = {"==": lambda x, y: x == y, "!=": lambda x, y: x != y, "<": lambda x, y: x < y, ">": lambda x, y: x > y,
+                        "<=": lambda x, y: x <= y, ">=": lambda x, y: x >= y}[ins.cond](val(ins.a), val(ins.b))
+                nxt = ins.lab_yes if bool(cond) else ins.lab_no
+                break
+            if isinstance(ins, ir.Jump):
+                nxt = ins.target
+                break
+            if isinstance(ins, ir.Phi):
+                vals[id(ins)] = val(ins.inputs[prev])
+            elif isinstance(ins, ir.Binop):
+                x, y = val(ins.a), val(ins.b)
+                for cnd in IRS.ir_defined(ins.operation, ins.ty, x, y):
+                    if not bool(cnd):
+                        raise Undecided("IR-undefined operation reached: %s" % ins)
+                vals[id(ins)] = IRS.ir_binop(ins.operation, ins.ty, x, y)
+            elif isinstance(ins, ir.Cast):
+                vals[id(ins)] = IRS.wrap(ins.ty, val(ins.src))
+            elif isinstance(ins, ir.Const):
+                vals[id(ins)] = ins.value
+            else:
+                raise Undecided("contract stale: %s in an operator lowering" % type(ins).__name__)
+            if ins is node:
+                return trapped, vals[id(ins)]
+        if nxt is None:
+            raise Undecided("contract stale: the skeleton ends before the result is defined")
+        prev, blk = blk, nxt
+    raise Undecided("contract stale: skeleton longer than 16 blocks")
 
 
 def _ir_value(v, a, b, e):
@@ -474,8 +548,27 @@ def _binop_call(fn, env, args, kwargs):
     return _gen_on_stub("gen_binop", "i%d.%s" % (env.n, env.op)).ty.name
 
 
+def _sdiv_call(fn, env, args, kwargs):
+    node = _gen_on_stub("gen_binop", "i%d.%s" % (env.n, env.op))
+    trapped, v = _ir_walk(node, env.a, env.b, env)
+    return [1 if trapped else 0, v, node.ty.name]
+
+
 for _n in (32, 64):
-    for _op in ("add", "sub", "mul", "div_s", "div_u", "rem_s", "rem_u", "and", "or", "xor", "shl", "shr_s", "shr_u"):
+    for _op in ("div_s", "rem_s"):
+        CONTRACTS.append(Contract(
+            WM + ":WasmToIrCompiler.gen_signed_division", "C22", label="gen_binop(i%d.%s): guarded lowering" % (_n, _op), grid=[{"n": _n, "op": _op}], make=_mk_ab,
+            call=_sdiv_call, sample_inputs=lambda g, rnd: _samples_ab(g, rnd) + [{"a": -(1 << (g["n"] - 1)), "b": -1}, {"a": -(1 << (g["n"] - 1)), "b": 1}, {"a": 5, "b": -1}],
+            replay_args=lambda g, v: {"args": [], "env": dict(v)},
+            requires=lambda e: [e.b != 0],          # division by zero: the IR division itself is the trap (bounded stand-in)
+            ensures=lambda e: [("the emitted IR has the instruction's result type", e.result[2] == "i%d" % e.n),
+                               ("the trap call is reached iff the instruction traps (div_s of INT_MIN by -1); rem_s never traps",
+                                e.result[0] == (b2i(and_(e.a == -(1 << (e.n - 1)), e.b == -1)) if e.op == "div_s" else 0)),
+                               ("otherwise the IR value is the WebAssembly value (rem_s of INT_MIN by -1 is 0)",
+                                implies(e.result[0] == 0, e.result[1] == (tdiv(e.a, e.b) if e.op == "div_s" else trem(e.a, e.b))))]))
+
+for _n in (32, 64):
+    for _op in ("add", "sub", "mul", "div_u", "rem_u", "and", "or", "xor", "shl", "shr_s", "shr_u"):
         CONTRACTS.append(Contract(
             WM + ":WasmToIrCompiler.gen_binop", "C22", label="gen_binop(i%d.%s)" % (_n, _op), grid=[{"n": _n, "op": _op}], make=_mk_ab,
             call=_binop_call, sample_inputs=_samples_ab, replay_args=lambda g, v: {"args": [], "env": dict(v)},
